@@ -72,6 +72,10 @@ def run_case(spec, ctx):
         model = GaussianMultivariate(distribution=dist, random_state=rs)
     else:
         model = mv.build_model(spec['config'], list(df.columns), rng, random_state=rs)
+    if spec['seed'] % 3 == 0 and spec['container'] != 'ndarray':
+        mv.give_past(model, df, rng)
+        model.set_random_state(rs)
+        where['refitted'] = True
     train = df.to_numpy() if spec['container'] == 'ndarray' else df.copy()
     cols = list(range(df.shape[1])) if spec['container'] == 'ndarray' else list(df.columns)
     np.random.seed(spec['seed'] % (2 ** 31))
